@@ -427,16 +427,23 @@ namespace Pistache::Http::Experimental
         }
         else
         {
-            Guard guard(timeoutsLock);
-            auto timerIt = timeouts.find(fd);
-            if (timerIt != std::end(timeouts))
+            // handleTimeout() ends in Client::processRequestQueue(), which takes the
+            // client's queue lock and may send the next request, i.e. come back here
+            // for timeoutsLock from another thread: never call it with the lock held
+            std::shared_ptr<Connection> connection;
             {
-                auto connection = timerIt->second.lock();
-                if (connection)
+                Guard guard(timeoutsLock);
+                auto timerIt = timeouts.find(fd);
+                if (timerIt != std::end(timeouts))
                 {
-                    connection->handleTimeout();
-                    timeouts.erase(fd);
+                    connection = timerIt->second.lock();
+                    if (connection)
+                        timeouts.erase(timerIt);
                 }
+            }
+            if (connection)
+            {
+                connection->handleTimeout();
             }
         }
     }
